@@ -6,7 +6,7 @@ VERIF = Path(__file__).resolve().parent.parent.parent
 sys.path.insert(0, str(VERIF / "tools"))
 
 PROPS_VO = "Props/C12.vo"
-EXTRA_VO = []
+EXTRA_VO = ["Model/C12Run.vo"]
 PROFILES = ["release"]
 RULE = ("harness c12: (i) formula records 120xx/121xx: every translated public *_tmp_bytes is called on the real crates "
         "(4 backends, n in {1,2,4,8,16,64}, odd limb counts, dsize 1..3, cross-radix) and must equal the value of the Gallina "
@@ -35,7 +35,7 @@ OPN = {1: "vec_znx_normalize", 2: "vec_znx_normalize_assign", 3: "vec_znx_rsh", 
        101: "lwe_encrypt_sk", 102: "lwe_decrypt", 103: "glwe_encrypt_sk", 104: "glwe_encrypt_pk", 105: "glwe_decrypt",
        106: "glwe_keyswitch", 107: "glwe_keyswitch_assign", 108: "glwe_external_product", 109: "glwe_external_product_assign",
        110: "glwe_automorphism", 111: "glwe_automorphism_add", 112: "glwe_trace", 113: "glwe_normalize", 114: "glwe_rsh",
-       115: "glwe_rotate_assign", 116: "glwe_mul_const", 117: "glwe_lsh_assign"}
+       115: "glwe_rotate_assign", 116: "glwe_mul_const", 117: "glwe_lsh_assign", 118: "glwe_public_key_generate"}
 
 
 def _parse(record):
